@@ -2,6 +2,7 @@ package ir
 
 import (
 	"go/token"
+	"go/types"
 	"regexp"
 	"sort"
 	"strings"
@@ -133,6 +134,11 @@ func (c Clause) MatchEdge(b *ssa.BasicBlock, succ int) bool {
 	if !ok {
 		return false
 	}
+	return c.MatchAtom(a)
+}
+
+// MatchAtom reports whether the atom is one of the clause's.
+func (c Clause) MatchAtom(a Atom) bool {
 	for _, e := range c.Edges {
 		if e.Match(a) {
 			return true
@@ -154,17 +160,162 @@ func (c Clause) CountEdges(fn *ssa.Function) int {
 	return n
 }
 
-// Walk explores fn forward at instruction granularity.
+// Walk explores fn forward at instruction granularity. It is path-sensitive
+// for boolean phis (flags assigned on different branches and tested later):
+// the exploration state carries, for every boolean phi, the incoming edge that
+// was taken when its block was last entered, so an `If` on such a flag is
+// resolved to the value the flag has on that path.
 type Walk struct {
 	// Stop: the instruction is recorded as reached but exploration does not
 	// continue past it.
 	Stop func(ssa.Instruction) bool
-	// Cut: the edge b -> b.Succs[i] is not followed.
-	Cut func(b *ssa.BasicBlock, i int) bool
+	// Cut: an edge on which this atom holds is not followed.
+	Cut func(Atom) bool
+	// CutEdge: structural cut (block, successor index); optional.
+	CutEdge func(b *ssa.BasicBlock, i int) bool
 
-	Reached map[ssa.Instruction]bool
-	parent  map[*ssa.BasicBlock]*ssa.BasicBlock
-	start   *ssa.BasicBlock
+	Reached  map[ssa.Instruction]bool
+	CutCount int
+	parent   map[*ssa.BasicBlock]*ssa.BasicBlock
+	start    *ssa.BasicBlock
+	phis     map[*ssa.Phi]int
+	// conds: condition values that are tested more than once (as an If
+	// condition or as an incoming value of a boolean phi). The truth assumed
+	// for them on the current path is part of the exploration state, so a
+	// path that takes `!ok` and later `ok` for the same SSA value is pruned.
+	conds map[ssa.Value]int
+}
+
+type wstate struct {
+	b   *ssa.BasicBlock
+	idx int
+	env string
+}
+
+func boolPhis(fn *ssa.Function) map[*ssa.Phi]int {
+	m := map[*ssa.Phi]int{}
+	for _, b := range fn.Blocks {
+		for _, in := range b.Instrs {
+			ph, ok := in.(*ssa.Phi)
+			if !ok {
+				break
+			}
+			if bt, ok := ph.Type().Underlying().(*types.Basic); ok && bt.Info()&types.IsBoolean != 0 {
+				m[ph] = len(m)
+			}
+		}
+	}
+	return m
+}
+
+func trackedConds(fn *ssa.Function) map[ssa.Value]int {
+	cnt := map[ssa.Value]int{}
+	strip := func(v ssa.Value) ssa.Value {
+		for {
+			if u, ok := v.(*ssa.UnOp); ok && u.Op == token.NOT {
+				v = u.X
+				continue
+			}
+			return v
+		}
+	}
+	for _, b := range fn.Blocks {
+		for _, in := range b.Instrs {
+			switch x := in.(type) {
+			case *ssa.If:
+				cnt[strip(x.Cond)]++
+			case *ssa.Phi:
+				if bt, ok := x.Type().Underlying().(*types.Basic); ok && bt.Info()&types.IsBoolean != 0 {
+					seen := map[ssa.Value]bool{}
+					for _, e := range x.Edges {
+						e = strip(e)
+						if _, isC := e.(*ssa.Const); isC || seen[e] {
+							continue
+						}
+						seen[e] = true
+						cnt[e]++
+					}
+				}
+			}
+		}
+	}
+	m := map[ssa.Value]int{}
+	// deterministic numbering
+	for _, b := range fn.Blocks {
+		for _, in := range b.Instrs {
+			if v, ok := in.(ssa.Value); ok && cnt[v] >= 2 {
+				if _, isPhi := v.(*ssa.Phi); isPhi {
+					continue
+				}
+				if _, dup := m[v]; !dup {
+					m[v] = len(m)
+				}
+			}
+		}
+	}
+	for _, p := range fn.Params {
+		if cnt[p] >= 2 {
+			m[p] = len(m)
+		}
+	}
+	for _, p := range fn.FreeVars {
+		if cnt[p] >= 2 {
+			m[p] = len(m)
+		}
+	}
+	return m
+}
+
+// resolveCond strips negations and resolves tracked phis through env.
+// It returns the resolved value and the polarity (cond == value XOR !pol).
+func (w *Walk) resolveCond(c ssa.Value, env []int8) (ssa.Value, bool) {
+	pol := true
+	for depth := 0; depth < 16; depth++ {
+		switch x := c.(type) {
+		case *ssa.UnOp:
+			if x.Op == token.NOT {
+				pol = !pol
+				c = x.X
+				continue
+			}
+		case *ssa.Phi:
+			if i, ok := w.phis[x]; ok && env[i] >= 0 && int(env[i]) < len(x.Edges) {
+				c = x.Edges[env[i]]
+				continue
+			}
+		}
+		break
+	}
+	return c, pol
+}
+
+// edgeAtoms computes, for block b in environment env, which successors are
+// feasible and the atom holding on each.
+func (w *Walk) edgeAtom(b *ssa.BasicBlock, succ int, env []int8) (Atom, bool, bool, ssa.Value, bool) {
+	// returns (atom, hasAtom, feasible, resolved condition value, its truth on this edge)
+	if len(b.Instrs) == 0 {
+		return Atom{}, false, true, nil, false
+	}
+	iff, ok := b.Instrs[len(b.Instrs)-1].(*ssa.If)
+	if !ok {
+		return Atom{}, false, true, nil, false
+	}
+	v, pol := w.resolveCond(iff.Cond, env)
+	if k, ok := v.(*ssa.Const); ok && isBoolConst(k) {
+		val := (ConstStr(k) == "true") == pol
+		if (succ == 0) == val {
+			return Atom{}, false, true, nil, false
+		}
+		return Atom{}, false, false, nil, false
+	}
+	// truth of the resolved value v on this edge
+	vt := pol
+	if succ == 1 {
+		vt = !vt
+	}
+	pred, p2 := NormCond(v)
+	truth := vt == p2
+	return Atom{Pred: pred, Truth: truth}, true, true, v, vt
 }
 
 // From explores from instruction index idx of block b (inclusive).
@@ -172,15 +323,22 @@ func (w *Walk) From(b *ssa.BasicBlock, idx int) *Walk {
 	w.Reached = map[ssa.Instruction]bool{}
 	w.parent = map[*ssa.BasicBlock]*ssa.BasicBlock{}
 	w.start = b
+	w.phis = boolPhis(b.Parent())
+	w.conds = trackedConds(b.Parent())
+	// env layout: [phi choices..., cond assumptions...]; -1 unknown; conds: 0 false, 1 true
+	env0 := make([]int8, len(w.phis)+len(w.conds))
+	for i := range env0 {
+		env0[i] = -1
+	}
+	np := len(w.phis)
 	type item struct {
 		b   *ssa.BasicBlock
 		idx int
+		env []int8
 	}
-	seen := map[*ssa.BasicBlock]bool{}
-	work := []item{{b, idx}}
-	if idx == 0 {
-		seen[b] = true
-	}
+	seen := map[wstate]bool{}
+	work := []item{{b, idx, env0}}
+	seen[wstate{b, idx, string(i8s(env0))}] = true
 	for len(work) > 0 {
 		it := work[0]
 		work = work[1:]
@@ -197,25 +355,118 @@ func (w *Walk) From(b *ssa.BasicBlock, idx int) *Walk {
 			continue
 		}
 		for si, s := range it.b.Succs {
-			if w.Cut != nil && w.Cut(it.b, si) {
+			atom, has, feasible, cv, cvt := w.edgeAtom(it.b, si, it.env)
+			if !feasible {
 				continue
 			}
-			if seen[s] {
+			ci := -1
+			if cv != nil {
+				if k, ok := w.conds[cv]; ok {
+					ci = np + k
+					if a := it.env[ci]; a >= 0 && (a == 1) != cvt {
+						continue // contradicts what this path already assumed for the same value
+					}
+				}
+			}
+			if has && w.Cut != nil && w.Cut(atom) {
+				w.CutCount++
 				continue
 			}
-			seen[s] = true
-			w.parent[s] = it.b
-			work = append(work, item{s, 0})
+			if w.CutEdge != nil && w.CutEdge(it.b, si) {
+				w.CutCount++
+				continue
+			}
+			// new environment: phis of s take the edge coming from it.b
+			env := it.env
+			first := true
+			if ci >= 0 && it.env[ci] < 0 {
+				env = append([]int8(nil), it.env...)
+				first = false
+				if cvt {
+					env[ci] = 1
+				} else {
+					env[ci] = 0
+				}
+			}
+			// entering s re-evaluates the condition values defined in s: forget
+			// what was assumed about them (loops)
+			for _, in := range s.Instrs {
+				if v, ok := in.(ssa.Value); ok {
+					if k, ok := w.conds[v]; ok && env[np+k] >= 0 {
+						if first {
+							env = append([]int8(nil), it.env...)
+							first = false
+						}
+						env[np+k] = -1
+					}
+				}
+			}
+			if len(w.phis) > 0 {
+				pi := predIndex(it.b, si, s)
+				for _, in := range s.Instrs {
+					ph, ok := in.(*ssa.Phi)
+					if !ok {
+						break
+					}
+					if k, ok := w.phis[ph]; ok {
+						if first {
+							env = append([]int8(nil), it.env...)
+							first = false
+						}
+						env[k] = int8(pi)
+					}
+				}
+			}
+			st := wstate{s, 0, string(i8s(env))}
+			if seen[st] {
+				continue
+			}
+			seen[st] = true
+			if _, ok := w.parent[s]; !ok && s != w.start {
+				w.parent[s] = it.b
+			}
+			work = append(work, item{s, 0, env})
 		}
 	}
 	return w
+}
+
+func i8s(e []int8) []byte {
+	b := make([]byte, len(e))
+	for i, x := range e {
+		b[i] = byte(x + 1)
+	}
+	return b
+}
+
+// predIndex finds the index in s.Preds corresponding to the si-th successor
+// edge of b.
+func predIndex(b *ssa.BasicBlock, si int, s *ssa.BasicBlock) int {
+	// occurrence number of s among b.Succs[0..si]
+	occ := 0
+	for i := 0; i < si; i++ {
+		if b.Succs[i] == s {
+			occ++
+		}
+	}
+	for i, p := range s.Preds {
+		if p == b {
+			if occ == 0 {
+				return i
+			}
+			occ--
+		}
+	}
+	return 0
 }
 
 // PathTo renders the block path from the walk's start to the block of in as a
 // list of positions (first positioned instruction of each block).
 func (w *Walk) PathTo(p *Prog, in ssa.Instruction) []string {
 	var blocks []*ssa.BasicBlock
-	for b := in.Block(); b != nil; b = w.parent[b] {
+	guard := 0
+	for b := in.Block(); b != nil && guard < 10000; b = w.parent[b] {
+		guard++
 		blocks = append(blocks, b)
 		if b == w.start {
 			break
@@ -275,7 +526,7 @@ func IndexOf(in ssa.Instruction) int {
 // GuardedBy reports whether every path from fn's entry to the instruction
 // crosses an edge of the clause. When not, the returned walk gives a witness.
 func GuardedBy(fn *ssa.Function, in ssa.Instruction, c Clause) (bool, *Walk) {
-	w := (&Walk{Cut: c.MatchEdge}).From(Entry(fn), 0)
+	w := (&Walk{Cut: c.MatchAtom}).From(Entry(fn), 0)
 	return !w.Reached[in], w
 }
 
